@@ -40,8 +40,9 @@ RoadmNotAboveTarget(x, tol) == \A i \in 1..Len(x.ch) :
                                   x.ch[i].out <= Target(x.node, x.deg, x.ch[i]) + x.ch[i].offset + tol
 RoadmLossApplied(x, tol)    == \A i \in 1..Len(x.ch) : x.ch[i].out <= x.ch[i].in - x.ch[i].maxloss + tol
 \* what the element reports about the crossing (Roadm.loss_pch_db, Roadm.pch_out_dbm) is what happened
-RoadmReported(x, tol)       == \A i \in 1..Len(x.ch) : /\ Within(x.ch[i].lossRep, x.ch[i].in - x.ch[i].out, tol)
-                                                         /\ Within(x.ch[i].poutRep, x.ch[i].out, tol)
+\* (rep = 1: the reported values were read before the element was crossed again)
+RoadmReported(x, tol)       == x.rep = 1 => \A i \in 1..Len(x.ch) : /\ Within(x.ch[i].lossRep, x.ch[i].in - x.ch[i].out, tol)
+                                                                      /\ Within(x.ch[i].poutRep, x.ch[i].out, tol)
 
 \* --- which impairment profile gives the path loss of a crossing ---------------------------------------------------------
 \* profiles: the profiles of the ROADM type AS LISTED in the library, <<[id, type, loss]>> (type = "add" | "drop" |
@@ -114,7 +115,8 @@ AmpBandLaw(inb, outb, band) ==
    /\ \A j \in 1..Len(outb) : \E i \in 1..Len(inb) : inb[i].f = outb[j].f
 
 \* --- NF gain sweep of one amplifier type: pts = <<[g, nf]>> with strictly increasing g, s = [gainMin, flatMax,
-\*     nfMin, nfMax, minmax (1 = min/max-NF model), poly (1 = polynomial model), dual (1 = dual stage)] -----------------------------------------------------------
+\*     nfMin, nfMax, minmax (1 = min/max-NF model), poly (1 = polynomial model), dual (1 = dual stage),
+\*     cascade (1 = the points carry the linear NF of the amplifier and of its two stages)] -----------------------------------------------------------
 SweepAt(pts, g)      == CHOOSE i \in 1..Len(pts) : pts[i].g = g
 SweepHas(pts, g)     == \E i \in 1..Len(pts) : pts[i].g = g
 SweepNfMinAtFlatMax(s, pts, tol) == (s.minmax = 1 /\ SweepHas(pts, s.flatMax)) =>
@@ -129,6 +131,11 @@ SweepNonIncreasingExtended(s, pts, tol) ==
 \* ... and the polynomial model (NF a function of the gain deficit below flatMax) stays at its flatMax value there
 SweepClampAboveMax(s, pts, tol) == (s.poly = 1 /\ SweepHas(pts, s.flatMax)) =>
    \A i \in 1..Len(pts) : pts[i].g > s.flatMax => Within(pts[i].nf, pts[SweepAt(pts, s.flatMax)].nf, tol)
+\* dual stage = cascade of its two stages (preamp at its maximum flat gain g1, booster at gain - g1, whatever its sign):
+\* in LINEAR units (x 1e6, converted by the harness) NF = NF(preamp) + NF(booster) / g1, where the two stage NFs are those
+\* of the stage amplifiers crossed alone at these gains
+SweepDualCascade(s, pts, tol) == s.cascade = 1 =>
+   \A i \in 1..Len(pts) : Within(pts[i].nfLin, pts[i].nf1Lin + pts[i].nf2g1Lin, tol)
 \* single-stage models: below the minimum gain NF grows dB for dB (padding)
 SweepDbForDbBelowMin(s, pts, tol) == (s.dual = 0 /\ SweepHas(pts, s.gainMin)) =>
                                        \A i \in 1..Len(pts) : pts[i].g < s.gainMin =>
